@@ -269,6 +269,7 @@ class Exec(object):
         self.events = []          # callee events (for contracts keyed by event)
         self.call_hooks = {}      # qualname -> python callable(ex, args, kwargs) replacing the body (modular use of a contract)
         self.loop_guard = 0
+        self.ghost_facts = []
         self.optable = None
         from . import optable
         self.optable = optable
@@ -309,6 +310,11 @@ class Exec(object):
 
     def assume(self, cond):
         self.pc.add(cond)
+
+    def assume_ghost(self, cond):
+        """facts about ghost (gauge-domain) reals: kept out of the path condition that decides shapes and branches,
+        used only by ghost obligations (keeps the integer queries linear and fast)"""
+        self.ghost_facts.append(cond)
 
     def note_unproved(self, kind, text):
         self.notes.append((kind, text))
